@@ -272,14 +272,17 @@ func ruleAppendAssignsEpochsFromTheCache(c *eng.Ctx) {
 		for _, blk := range fn.Blocks {
 			for _, in := range blk.Instrs {
 				bo, isBin := in.(*ssa.BinOp)
-				if !isBin || (bo.Op != token.GTR && bo.Op != token.LSS) {
+				if !isBin || (bo.Op != token.GTR && bo.Op != token.LSS && bo.Op != token.LEQ && bo.Op != token.GEQ) {
 					continue
 				}
+				// whichever way the order test is written (`e > last`, `last < e`, `!(e <= last)`), the side that is not the
+				// entry's epoch is what the entry is measured against
 				x, y := bo.X, bo.Y
-				if bo.Op == token.LSS {
-					x, y = y, x
-				}
 				fx, bx := eng.FieldRead(eng.Strip(x))
+				if fx == nil || fx.Name() != "LeaderEpoch" || eng.Strip(bx) != eng.Strip(b1) {
+					x, y = y, x
+					fx, bx = eng.FieldRead(eng.Strip(x))
+				}
 				if fx == nil || fx.Name() != "LeaderEpoch" || eng.Strip(bx) != eng.Strip(b1) {
 					continue
 				}
